@@ -185,7 +185,13 @@ def run(prop, tier, replay, make_plan, level="model_checking", panic_props=("C01
         tpath = os.path.join(d, "trace.ndjson")
         rows = []
         for i, h in enumerate(hs):
-            rows.append({"id": i + 1, "theory": theory, "fam": h["fam"], "steps": h["steps"]})
+            steps = h["steps"]
+            if i % 3 == 2 and prop != "C06" and replay is None:
+                # every third history calls the public close() itself instead of close_until(never): no
+                # observation inside the loop, but the function a caller uses is the one that runs
+                # (not for C06: a close() that does not return could not be cut off)
+                steps = [dict(st, raw=True) if st["op"] == "close" else st for st in steps]
+            rows.append({"id": i + 1, "theory": theory, "fam": h["fam"], "steps": steps})
         vlib.write_ndjson(hpath, rows)
         r = vlib.run([os.path.join(vlib.BIN, binary), hpath, tpath], timeout=1800)
         if r.returncode != 0:
